@@ -70,7 +70,7 @@ func TestVerifC01Trace(t *testing.T) {
 		w.Raw(vx.M{"ev": "cfg", "cfg": cfg})
 		paths := rgReqPaths(r, cfg)
 		for i := 0; i < nreq; i++ {
-			q := rgReq(r, o, paths, []vx.M{client})
+			q := rgReq(r, o, cfg, paths, []vx.M{client})
 			got := rhServe(mx, q)
 			w.Raw(vx.M{"ev": "req", "q": q, "ou": got, "oc": got, "zu": got, "zc": got, "cul": []interface{}{}})
 		}
